@@ -15,6 +15,7 @@ import (
 	"fmt"
 	"os"
 	"path/filepath"
+	"runtime"
 	"sort"
 	"strings"
 	"time"
@@ -172,7 +173,26 @@ func main() {
 			p.Gen(g, *n)
 		}
 		if p.Oracle != nil {
-			p.Oracle(g, *on)
+			// The oracle calls the real code directly; a panic there must not kill the run (it is itself a
+			// finding: no property allows a crash).  Run it under recover; after a panic run it again (the
+			// PRNG has advanced, so other cases are explored), a few times at most.
+			for attempt := 0; attempt < 4; attempt++ {
+				panicked := false
+				func() {
+					defer func() {
+						if r := recover(); r != nil {
+							panicked = true
+							buf := make([]byte, 4096)
+							buf = buf[:runtime.Stack(buf, false)]
+							g.Fail("panic inside the implementation while the oracle was evaluating a case", fmt.Sprintf("%v\n%s", r, buf))
+						}
+					}()
+					p.Oracle(g, *on)
+				}()
+				if !panicked {
+					break
+				}
+			}
 		}
 		g.close()
 		b, _ := json.MarshalIndent(g.st, "", " ")
